@@ -48,7 +48,7 @@ func init() {
 			"distinct by (algorithm, key, message, signer, mutation). create leg: CreateCertificate / CreateCertificateRequest / CreateCRL / CreateRevocationList / ocsp.CreateResponse × " +
 			"SignatureAlgorithm 0..16 × RSA, ECDSA P-224..P-521, Ed25519 signer keys; non-trivial = the API accepted the pair (object created)",
 		MinNontrivial:         27000,
-		MinNontrivialThorough: 400000,
+		MinNontrivialThorough: 1000000,
 		Shards:                16,
 		Env:                   []string{"GODEBUG=rsa1024min=0"},
 		Assumptions: []string{
